@@ -45,12 +45,63 @@ import (
 // Spec tells the child what to run.
 type Spec struct {
 	DataDir string `json:"datadir"`
-	SSH     string `json:"ssh,omitempty"` // "", "ssh-simulator", "ssh-auth"
+	SSH     string `json:"ssh,omitempty"` // "", "ssh-simulator", "ssh-auth", "ssh-proxy", "ssh-jail"
 	FTP     bool   `json:"ftp,omitempty"`
 	SMTP    bool   `json:"smtp,omitempty"`
 	LDAP    bool   `json:"ldap,omitempty"`
 	Agent   bool   `json:"agent,omitempty"`
+	// More: types of further service instances enabled in the same start, each on a port of
+	// its own ("ssh-auth", "ftp", ...). Instances whose types persist the same identity item
+	// (the four ssh services share ssh.private-key, two ftp instances share ftp.pem* ...)
+	// share that item.
+	More []string `json:"more,omitempty"`
 }
+
+// instT is one configured service instance that presents a persisted identity item.
+type instT struct {
+	Name string // service name in the configuration = key in Identity.Items
+	Type string // registered service type
+	Item string // persisted identity item it presents: ssh | ftp | smtp | ldap
+	Port int
+}
+
+// itemOf maps a service type to the identity item it persists ("" = none known).
+func itemOf(typ string) string {
+	switch typ {
+	case "ssh-simulator", "ssh-auth", "ssh-proxy", "ssh-jail":
+		return "ssh"
+	case "ftp", "smtp", "ldap":
+		return typ
+	}
+	return ""
+}
+
+// instances lists the service instances of one start: the primary instance of each item
+// (named like the item, on its standard port) and the further ones from more.
+func instances(sshType string, ftp, smtp, ldap bool, more []string) []instT {
+	var out []instT
+	if sshType != "" {
+		out = append(out, instT{"ssh", sshType, "ssh", ports["ssh"]})
+	}
+	for _, x := range []struct {
+		on bool
+		n  string
+	}{{ftp, "ftp"}, {smtp, "smtp"}, {ldap, "ldap"}} {
+		if x.on {
+			out = append(out, instT{x.n, x.n, x.n, ports[x.n]})
+		}
+	}
+	for i, typ := range more {
+		it := itemOf(typ)
+		if it == "" {
+			continue
+		}
+		out = append(out, instT{fmt.Sprintf("%s-x%d", it, i), typ, it, 2000 + i})
+	}
+	return out
+}
+
+func (s Spec) instances() []instT { return instances(s.SSH, s.FTP, s.SMTP, s.LDAP, s.More) }
 
 // Identity is what one completed run presented to the outside.
 type Identity struct {
@@ -75,20 +126,8 @@ func (s Spec) toml(id string) string {
 	var b strings.Builder
 	fmt.Fprintf(&b, "[listener]\ntype=\"verif-mem\"\nid=%q\n\n[channel.cap]\ntype=\"verif-capture\"\nid=%q\n\n[[filter]]\nchannel=[\"cap\"]\n\n", id, id+"-cap")
 	fmt.Fprintf(&b, "[service.probe]\ntype=\"verif-plain\"\nid=%q\n\n[[port]]\nport=\"tcp/%d\"\nservices=[\"probe\"]\n\n", id+"-probe", ports["probe"])
-	add := func(name, typ string) {
-		fmt.Fprintf(&b, "[service.%s]\ntype=%q\n\n[[port]]\nport=\"tcp/%d\"\nservices=[%q]\n\n", name, typ, ports[name], name)
-	}
-	if s.SSH != "" {
-		add("ssh", s.SSH)
-	}
-	if s.FTP {
-		add("ftp", "ftp")
-	}
-	if s.SMTP {
-		add("smtp", "smtp")
-	}
-	if s.LDAP {
-		add("ldap", "ldap")
+	for _, in := range s.instances() {
+		fmt.Fprintf(&b, "[service.%s]\ntype=%q\n\n[[port]]\nport=\"tcp/%d\"\nservices=[%q]\n\n", in.Name, in.Type, in.Port, in.Name)
 	}
 	return b.String()
 }
@@ -133,34 +172,41 @@ func childMain(specJSON string) {
 	stub.Bus().Send(event.New(event.Category("c18"), event.Type("probe"), event.Custom("c18.probe", "1")))
 
 	client := 40000
-	dial := func(name string) *lab.ClientNetConn {
+	dial := func(port int) *lab.ClientNetConn {
 		client++
-		c := srv.L.DialTCP(&net.TCPAddr{IP: net.IPv4(10, 0, 0, 1), Port: ports[name]}, &net.TCPAddr{IP: net.IPv4(203, 0, 113, 9), Port: client})
+		c := srv.L.DialTCP(&net.TCPAddr{IP: net.IPv4(10, 0, 0, 1), Port: port}, &net.TCPAddr{IP: net.IPv4(203, 0, 113, 9), Port: client})
 		nc := c.NetConn()
 		nc.SetDeadline(time.Now().Add(ioTimeout))
 		return nc
 	}
-	observe := func(name string, fn func(nc *lab.ClientNetConn) (string, error)) {
-		nc := dial(name)
+	observe := func(in instT, fn func(nc *lab.ClientNetConn) (string, error)) {
+		nc := dial(in.Port)
 		v, err := fn(nc)
 		nc.Close()
 		if err != nil {
-			ident.Errs[name] = err.Error()
+			ident.Errs[in.Name] = err.Error()
 			return
 		}
-		ident.Items[name] = v
+		ident.Items[in.Name] = v
 	}
-	if spec.SSH != "" {
-		observe("ssh", sshHostKey)
-	}
-	if spec.FTP {
-		observe("ftp", ftpCert)
-	}
-	if spec.SMTP {
-		observe("smtp", smtpCert)
-	}
-	if spec.LDAP {
-		observe("ldap", ldapCert)
+	for _, in := range spec.instances() {
+		switch in.Item {
+		case "ssh":
+			if in.Type == "ssh-proxy" || in.Type == "ssh-jail" {
+				// the host key is offered (and its signature verified) during key exchange;
+				// these two types are not taken any further than that (the proxy would dial
+				// its director on a password attempt)
+				observe(in, sshHostKeyNoAuth)
+			} else {
+				observe(in, sshHostKey)
+			}
+		case "ftp":
+			observe(in, ftpCert)
+		case "smtp":
+			observe(in, smtpCert)
+		case "ldap":
+			observe(in, ldapCert)
+		}
 	}
 	if spec.Agent {
 		v, err := agentKey()
@@ -256,10 +302,18 @@ func tlsPeer(nc net.Conn) (string, error) {
 }
 
 func sshHostKey(nc *lab.ClientNetConn) (string, error) {
+	return sshHostKeyWith(nc, []ssh.AuthMethod{ssh.Password("root")})
+}
+
+func sshHostKeyNoAuth(nc *lab.ClientNetConn) (string, error) {
+	return sshHostKeyWith(nc, nil)
+}
+
+func sshHostKeyWith(nc *lab.ClientNetConn, auth []ssh.AuthMethod) (string, error) {
 	var key []byte
 	cfg := &ssh.ClientConfig{
 		User: "root",
-		Auth: []ssh.AuthMethod{ssh.Password("root")},
+		Auth: auth,
 		HostKeyCallback: func(hostname string, remote net.Addr, k ssh.PublicKey) error {
 			key = k.Marshal()
 			return nil
